@@ -29,6 +29,8 @@ func init() {
 			{"C02.R4", "q", "shared: hints trusted only for the covered prefix", c02r4},
 			{"C18.R6", "q", "shared: hint files of a chunk removed by glob", c18r6},
 			{"C02.R8", "q", "shared: rebuild indexes every scanned record", c02r8},
+			{"C14.R14", "q", "shared: split dump discipline", c14r14},
+			{"C09.R6", "q", "shared: resynchronisation starts at the failed record", c09r6},
 		},
 	})
 }
